@@ -6,10 +6,14 @@ from pathlib import Path
 
 V = Path(__file__).resolve().parent.parent
 
-COMMON_NOTE = ("Trusted: Coq 8.16.1 kernel (vm_compute used, native_compute not used); no axioms (every theorem prints "
-               "'Closed under the global context', audited on every run); tools/gen_consts.py (tables -> Generated.v); the "
-               "correspondence harness (generators on the dyadic grid k/64 where float64 == Q, canonicalisation); numpy/pandas "
-               "runtime semantics are modelled as executable Gallina and validated by the correspondence, not verified.")
+COMMON_NOTE = ("Trusted: Coq 8.16.1 kernel (vm_compute used, native_compute not used); no axioms under any property theorem "
+               "(each prints 'Closed under the global context', audited on every run); tools/gen_consts.py (tables, flag "
+               "skeletons and array programs -> Generated.v, fail-closed per definition); the correspondence harness "
+               "(generators on dyadic grids where float64 == Q, canonicalisation); numpy/pandas runtime semantics are "
+               "modelled as executable Gallina and validated by the correspondence, not verified. Support theorems "
+               "FloatExact.v (float64 round-to-nearest-even is exact on the grid for the additive intermediates; = Flocq's "
+               "b64_plus/b64_minus) depend on the standard library's real-number axioms (sig_not_dec, sig_forall_dec, "
+               "functional_extensionality_dep, classic) and on nothing else.")
 
 CLAIMED = {
     "C01": dict(
